@@ -23,6 +23,7 @@ from .persistent_process import PersistentProcessWorker
 from .remote_pickle import loads, dumps, SupportRemoteGetState
 from .remote import sanitize_target_host, send_msg, recv_msg, ConnectionClosedError, set_keepalive
 from .utils import get_logger
+from .worker import WorkerTerminatedError
 
 logger = get_logger(__name__)
 
@@ -37,7 +38,13 @@ class RemoteContextWorker(PersistentProcessWorker):
         try:
             ret = super().do_work()
         finally:
-            self._target(None, _clean=True)
+            try:
+                self._target(None, _clean=True)
+            except WorkerTerminatedError:
+                # a (second) termination request landed in the middle of the clean-up, e.g. the server told us to stop and
+                # then went away itself: the workers of this context must not survive us - run the clean-up once more
+                self._target(None, _clean=True)
+                raise
 
         return ret
 
